@@ -144,8 +144,11 @@ structure Parser where
 def Parser.getLine (p : Parser) : Option Line Ã— Parser :=
   match p.s.getLine with
   | (none, s') => (none, { p with s := s' })
-  -- the last line of a patch whose final newline went missing is a line like any other: only a line that says so ends without one
-  | (some l, s') => (some (if l.newline = .none then { l with newline := .lf } else l), { s := s', lineNo := p.lineNo + 1 })
+  -- the last line of a patch whose final newline went missing is a line like any other: only a line that says so ends without one;
+  -- a CR at the very end of the patch is what is left of a CRLF (D85)
+  | (some l, s') => (some (if l.newline = .none then
+                             (if l.content.getLast? = some CR then { content := l.content.dropLast, newline := .crlf } else { l with newline := .lf })
+                           else l), { s := s', lineNo := p.lineNo + 1 })
 
 structure HState where
   par : Parser
@@ -209,8 +212,8 @@ def headerStep (st : HState) (line : Bytes) (strip : Int) : Except Exn (HState Ã
   | some r => (parseFileLine r strip).map fun res => ({ st with patch := { p with indexPath := res.1 } }, true)
   | none =>
   match consumeStr (str "Prereq: ") line with
-  -- a word to look for in the file, not the name of one: nothing to strip
-  | some r => (parseFileLine r 0).map fun res => ({ st with patch := { p with prerequisite := res.1 } }, true)
+  -- a word to look for in the file, not the name of one: nothing to strip or to unquote (D90)
+  | some r => .ok ({ st with patch := { p with prerequisite := r.takeWhile fun c => c != SP && c != TAB } }, true)
   | none =>
   match consumeStr (str "diff --git ") line with
   | some r =>
